@@ -1215,7 +1215,21 @@ for _n, _sp in (("compute", spec_compute), ("persist", spec_persist), ("to_dask_
 
 def _assign_body(interp, ctx, a, k):
     z, name, val = a
-    interp.set_attr(z, name, val, ctx)
+    from pyvc.contract import compare_values
+    before = {n: interp.get_attr(z, n, ctx) for n in _PUBLIC[z.cls.name]}
+    try:
+        interp.set_attr(z, name, val, ctx)
+    except PyExc:
+        # a rejected assignment leaves the object as it was (C16: "never yield an object" violating the class
+        # contract): every public attribute still reads as before
+        for n in _PUBLIC[z.cls.name]:
+            try:
+                now = interp.get_attr(z, n, ctx)
+            except PyExc as e2:
+                ctx.oblige(f"post.rejected-assignment-leaves-object-unchanged[{n}]", False, "post", {"got": f"reading raises {e2.kind}"})
+                continue
+            compare_values(interp, ctx, f"post.rejected-assignment-leaves-object-unchanged[{n}]", now, before[n])
+        raise
     # observable state after the assignment
     return {n: interp.get_attr(z, n, ctx) for n in _PUBLIC[z.cls.name] if True}
 
@@ -1303,7 +1317,21 @@ def inst_assign():
 
 def _assign_real(pb, a, k):
     z, name, val = a
-    setattr(z, name, val)
+    import pickle
+    def state():
+        out = {}
+        for n in _PUBLIC[type(z).__name__]:
+            v = getattr(z, n)
+            out[n] = (type(v).__name__, str(getattr(v, "unit", "")), repr(getattr(v, "jd1", None)), repr(getattr(v, "jd2", None)), repr(getattr(v, "value", v)))
+        return out
+    before = state()
+    try:
+        setattr(z, name, val)
+    except Exception:
+        after = state()
+        if after != before:
+            raise RuntimeError(f"rejected assignment changed the object: {[(n, before[n], after[n]) for n in before if before[n] != after[n]]}")
+        raise
     return {n: getattr(z, n) for n in _PUBLIC[type(z).__name__]}
 
 
